@@ -15,6 +15,7 @@ def check(run):
         crules.size_rules(run, r2, ast)
         crules.reserve_rules(run, r3, ast)
         crules.alloc_rules(run, r3, ast)
+        crules.mark_rules(run, r3, ast)
         crules.model_rules(run, r3, ast, parts=("params",))
         # a class only gets a cell for a method if it is known to derive from the method's class: every listed base of every
         # registration record is recorded
